@@ -143,8 +143,12 @@ func (l *Lexer) bracesToken(tok token.TokenType, literal string) token.Token {
 }
 
 func (l *Lexer) illegalToken() token.Token {
+	char := l.char
+
 	l.tokenBegins()
-	return l.newToken(token.ILLEGAL, string(l.char))
+	l.readChar() // skip the illegal character
+
+	return l.newToken(token.ILLEGAL, string(char))
 }
 
 func (l *Lexer) directiveToken() token.Token {
